@@ -151,6 +151,7 @@ def run_fp_one(ctx, n):
         obl.append(("quantile rank reached", False))
     else:
         obl.append(("n=%d: calibration quantile rank <= 1 (np.quantile accepts it)" % n, q <= 1.0))
+        obl.append(("n=%d: calibration quantile rank < 1 (some calibration score can exceed it: a finite correction exists)" % n, q < 1.0))
         obl.append(("n=%d: calibration quantile rank >= 0" % n, q >= 0.0))
     return obl, {}
 
